@@ -117,7 +117,7 @@ fn digits_le(v: &BigUint, b: u64) -> Vec<u64> {
     dg
 }
 fn nl(d: &[u64]) -> V {
-    V::L(d.iter().map(|x| V::N(*x as u128)).collect())
+    V::U(d.to_vec())
 }
 fn e_invalid_digit(d: u64, b: u64) -> V {
     V::err(V::T(vec![V::s("InvalidDigit"), V::N(d as u128), V::N(b as u128)]))
